@@ -275,6 +275,44 @@ def ob_reactions(dim):
     return Verdict(DISCHARGED, backend="native run", sub=2)
 
 
+def ob_reactions_frame(kind):
+    """a 2-D frame of two beams joined by a rigid / hinged connection (the system then carries Lagrange multipliers), clamped at one end, loaded at the other:
+    Calc_Reaction on the clamped dofs balances the applied force and its moment about the support."""
+    from EasyFEA import Models, Simulations, Mesher, ElemType
+    from EasyFEA.Geoms import Domain, Point, Line
+    mesher = Mesher()
+    section = mesher.Mesh_2D(Domain(Point(-0.05, -0.05), Point(0.05, 0.05)))
+    p1, p2, p3 = Point(0, 0), Point(2, 0), Point(2, 1.5)
+    beams = [Models.Beam.Isotropic(2, Line(a, b, 0.5), section, 210e9, 0.3) for a, b in ((p1, p2), (p2, p3))]
+    mesh = mesher.Mesh_Beams(beams, elemType=ElemType.SEG2)
+    simu = Simulations.Beam(mesh, Models.Beam.BeamStructure(beams))
+    n1 = mesh.Nodes_Point(p1)
+    simu.add_dirichlet(n1, [0, 0, 0], ["x", "y", "rz"])
+    if kind == "fixed":
+        simu.add_connection_fixed(mesh.Nodes_Point(p2))
+    else:
+        simu.add_connection_hinged(mesh.Nodes_Point(p2))
+        simu.add_dirichlet(mesh.Nodes_Point(p3), [0], ["rz"])       # the hinged arm is held in rotation at its tip (otherwise a mechanism)
+    Fx, Fy = 1000.0, -5000.0
+    simu.add_neumann(mesh.Nodes_Point(p3), [Fx, Fy], ["x", "y"])
+    simu.Solve()
+    dofs = simu.Bc_dofs_nodes(n1, ["x", "y", "rz"])
+    try:
+        R = np.asarray(simu.Calc_Reaction(dofs), dtype=float)
+    except Exception as ex:
+        raise Refuted(f"2-D frame with a {kind} connection: Calc_Reaction on the clamped support raises {type(ex).__name__}: {ex}", cex=dict(connection=kind), signature=f"reactions:frame:{kind}:raises",
+                      replay=dict(confirmed=True, raised=repr(ex)[:200]))
+    want = np.array([-Fx, -Fy])
+    if R.shape != (3,) or np.abs(R[:2] - want).max() > 1e-6 * np.abs(want).max():
+        raise Refuted(f"2-D frame with a {kind} connection: Calc_Reaction on the clamped support gives {R.tolist()}, the applied force is ({Fx}, {Fy})", cex=dict(connection=kind), signature=f"reactions:frame:{kind}:balance",
+                      replay=dict(confirmed=True))
+    if kind == "fixed":
+        cz = -(Fy * 2.0 - Fx * 1.5)
+        if abs(R[2] - cz) > 1e-6 * abs(cz):
+            raise Refuted(f"2-D frame with a fixed connection: reaction moment {R[2]} instead of {cz}", signature="reactions:frame:fixed:moment", replay=dict(confirmed=True))
+    return Verdict(DISCHARGED, backend="native", sub=3)
+
+
 def ob_calc_reaction(algo):
     """_Simu.Calc_Reaction from the AST on symbolic matrices and vectors: the returned values are (K u)[dofs] for an elliptic problem,
     (K u + C v)[dofs] for a parabolic one and (K u + C v + M a)[dofs] for every hyperbolic algorithm, for any dof subset and order."""
@@ -621,6 +659,9 @@ def build(tier, seed):
         obs.append(Ob(f"C16.result.Elastic.{dim}d{'.mixed' if mixed else ''}" + (f".s{sd}" if sd else ""), ob_result_elastic, (dim, mixed, seed + sd), "X", (f"{SE}::Elastic.Result", f"{SE}::Elastic._Calc_Psi_Elas",
                       f"{MU}::Result_strain_or_stress_field_e", "EasyFEA/Simulations/_simu.py::_Simu.Results_Reshape_values"),
                       bound="one mesh, one random non-equilibrium state (u, v, a)", clause="all advertised names; components vs vectors; Svm; Wdef = 1/2 u'Ku; constants preserved", timeout=300))
+    for kind in ("fixed", "hinged"):
+        obs.append(Ob(f"C16.reactions.frame.{kind}", ob_reactions_frame, (kind,), "X", ("EasyFEA/Simulations/_simu.py::_Simu.Calc_Reaction", "EasyFEA/Simulations/_simu.py::_Simu.Get_K_C_M_F"), bound="one two-beam frame",
+                      clause="reactions of the clamped support of a frame whose beams are joined by connections (system with Lagrange multipliers) balance the applied load"))
     for dim in (2, 3):
         obs.append(Ob(f"C16.reactions.{dim}d", ob_reactions, (dim,), "X", ("EasyFEA/Simulations/_simu.py::_Simu.Solve",), bound="one loaded, constrained patch",
                       clause="reactions on the constrained boundary balance the applied loads", timeout=300))
